@@ -433,7 +433,8 @@ func Exec(c Case) *Run {
 	tracked := append(am.S{}, names...)
 	copts := &arpc.ClientOpts{SyncShallowClocks: c.Shallow, NoSchema: c.NoSchema, SyncMutations: c.SyncMut}
 	if c.Allowed {
-		copts.AllowedStates = am.S{"A", "B", "C"}
+		// not in schema order: the index space of the diffs is the one agreed in the handshake
+		copts.AllowedStates = am.S{"C", "A", "B"}
 		tracked = am.S{"A", "B", "C"}
 	}
 	if c.Skipped {
@@ -845,7 +846,10 @@ func GenCase(r *rand.Rand) Case {
 	// half of the scenarios run the default configuration (compared with the model message by
 	// message), the others draw from the sync configurations
 	if r.Intn(2) == 0 {
-		switch r.Intn(6) {
+		switch r.Intn(7) {
+		case 6:
+			// schema-less client with an allowlist
+			c.NoSchema, c.Allowed = true, true
 		case 0, 1:
 			c.Shallow = true
 		case 2:
@@ -858,6 +862,16 @@ func GenCase(r *rand.Rand) Case {
 			c.Shallow = true
 			c.Allowed = r.Intn(2) == 0
 			c.NoSchema = !c.Allowed
+		}
+		if r.Intn(4) == 0 {
+			// per-mutation diffs with a partly tracked source: D (untracked) removes A (tracked)
+			c.SyncMut = true
+			c.Shallow, c.NoSchema = false, false
+			if r.Intn(2) == 0 {
+				c.Allowed, c.Skipped = true, false
+			} else {
+				c.Allowed, c.Skipped = false, true
+			}
 		}
 	}
 	states := []string{"a", "b", "c", "d"}
